@@ -10,7 +10,9 @@ package metadata
 // engine -> SQLite + fsbinlog, with the budgets shrunk through Options so that the limits bind
 // after two creations. Every answer is checked against a reference written here: a bijection
 // (map both ways + the set of deleted ids) and the flood arithmetic exactly as the property
-// words it (see c19Flood).
+// words it (see c19Flood). The restart family puts restarts (rebuild from the binlog on a fresh file,
+// reopen of the same file, start from a snapshot + binlog tail) into the alphabet: the reference is
+// not told about them, so every clause has to hold across the mix of live-written and replayed rows.
 
 import (
 	"context"
@@ -757,8 +759,8 @@ func TestVerifC19(t *testing.T) {
 		}
 		parts = kept
 	}
-	rep.Rule = "state-hashing BFS over every history up to the depth bound of: the full alphabet {getOrCreate (m1,k1..k4) (m2,k1) (m2,k5), put k1->5 / k3->1, delete [1] / [2,5], resetFlood m1 to default / 1 / 3, clock +1 step / +3 steps / +20 s}; the flood sub-alphabet {getOrCreate (m1,k1..k4) (m2,k5), resetFlood m1 to 1 / 3, clock +1 / +3 steps} and the bijection sub-alphabet {getOrCreate (m1,k1..k3) (m2,k1), put x2, delete x2}, each deeper; budget configurations StepSec 60 with MaxBudget 2 bonus 1 GlobalBudget 0 / 1, MaxBudget 1 bonus 1, and a roomy one for the bijection part. Non-trivial: the last request meets existing state (a key that is already mapped, an id or key that a put/delete hits, a creation refused or counted against a budget, a reset)"
-	rep.Assume("requests are issued sequentially (each is one atomic engine transaction); the in-memory last-created id is that of one process lifetime (no restart inside a history; restarts are C16's subject)")
+	rep.Rule = "state-hashing BFS over every history up to the depth bound of: the full alphabet {getOrCreate (m1,k1..k4) (m2,k1) (m2,k5), put k1->5 / k3->1, delete [1] / [2,5], resetFlood m1 to default / 1 / 3, clock +1 step / +3 steps / +20 s}; the flood sub-alphabet {getOrCreate (m1,k1..k4) (m2,k5), resetFlood m1 to 1 / 3, clock +1 / +3 steps} and the bijection sub-alphabet {getOrCreate (m1,k1..k3) (m2,k1), put x2, delete x2}, each deeper; budget configurations StepSec 60 with MaxBudget 2 bonus 1 GlobalBudget 0 / 1, MaxBudget 1 bonus 1, and a roomy one for the bijection part; the restart family {getOrCreate (m1,k1..k3) (m2,k5), clock +1 step, restart on a fresh SQLite file (whole binlog replayed), restart on the same file, snapshot, restart from the snapshot (binlog tail replayed)} and {getOrCreate (m1,k1) (m1,k2) (m2,k1), put x2, delete x2, restart on a fresh file, snapshot, restart from the snapshot}: the restart is an operation inside the history, the reference is not told about it. Non-trivial: the last request meets existing state (a key that is already mapped, an id or key that a put/delete hits, a creation refused or counted against a budget, a reset, a restart of an instance that holds flood state)"
+	rep.Assume("requests are issued sequentially (each is one atomic engine transaction); restarts are orderly (Close, then OpenDB on a fresh file / the same file / a snapshot taken by Engine.Backup) and happen between requests; a kill between binlog write and the periodic SQLite commit is represented by its state shape (snapshot + replayed tail) only; resets are not combined with restarts (ResetFlood writes no binlog event: listed finding C16:reset-flood-not-replayed)")
 	rep.Assume("not asserted, because the property only bounds creation from above: that a request within the budget is granted (the reference accepts a flood-limit answer for any unmapped key); what put does to the pairs it names (only that the result is a bijection and unrelated pairs are untouched); whether an id displaced by put may be issued again")
 	rep.Assume("SQLite (amalgamation 3.53.0 supplied by /verif) is trusted")
 	for _, p := range parts {
